@@ -44,12 +44,16 @@ func genC09(t *rapid.T) c09Case {
 	c.Sys = rapid.SampledFrom([]int{0, 0, 1, 2, 3}).Draw(t, "sys")
 	locs := c09Locs[:c.NLocs]
 	n := rapid.IntRange(3, 22).Draw(t, "nops")
+	bulkLeft := 0
+	if rapid.IntRange(0, 5).Draw(t, "bulk?") == 0 {
+		bulkLeft = 2
+	}
 	for i := 0; i < n; i++ {
 		l := fmt.Sprintf("op%d", i)
 		li := rapid.IntRange(0, c.NLocs-1).Draw(t, l+".loc")
 		loc := locs[li]
 		k := rapid.IntRange(1, 2).Draw(t, l+".n")
-		switch rapid.SampledFrom([]string{"parents", "parents", "parents", "fact", "fact", "fact", "remFact", "rule", "rule", "remRule", "disable", "enable", "dupFact", "bulk"}).Draw(t, l+".kind") {
+		switch rapid.SampledFrom([]string{"parents", "parents", "parents", "fact", "fact", "fact", "remFact", "rule", "rule", "remRule", "disable", "enable", "dupFact", "bulk", "bulk"}).Draw(t, l+".kind") {
 		case "parents":
 			var ps []string
 			np := rapid.SampledFrom([]int{0, 1, 1, 1, 2}).Draw(t, l+".np")
@@ -79,7 +83,12 @@ func genC09(t *rapid.T) c09Case {
 			c.Ops = append(c.Ops, op{K: "addFact", Loc: loc, Id: fmt.Sprintf("%s_f%d", loc, k), Doc: M{"at": loc, "v": rapid.SampledFrom([]string{"x", "y"}).Draw(t, l+".v")}})
 		case "bulk":
 			// many facts at once: inherited results that outgrow the
-			// buffers their merging starts with
+			// buffers their merging starts with (in one case of six, at
+			// most twice: every later observation pays for them)
+			if bulkLeft == 0 {
+				continue
+			}
+			bulkLeft--
 			c.Ops = append(c.Ops, op{K: "bulk", Loc: loc, N: int64(rapid.SampledFrom([]int{20, 33, 45, 64, 70}).Draw(t, l+".count"))})
 		case "dupFact":
 			// deliberately not qualified by location
